@@ -28,7 +28,7 @@ ASSUMPTIONS = [
     "window 0 / negative / non-integer windows are outside the quantifier (1 <= w) and not driven",
 ]
 REQUIRED = {"all": ["salted_objects", "w_eq_1", "w_eq_N", "w_gt_N_rejected", "even_windows", "odd_windows", "delta_link_checked",
-                    "user_groups", "default_groups", "invalid_group_rejected", "histidine_windows", "default_window_calls", "numpy_int_windows", "windows_ge_128_sequences", "empty_user_groups", "repeated_user_groups", "more_than_1000_windows"]}
+                    "user_groups", "default_groups", "invalid_group_rejected", "histidine_windows", "default_window_calls", "numpy_int_windows", "windows_ge_128_sequences", "empty_user_groups", "repeated_user_groups", "more_than_1000_windows", "user_groups_larger_than_half_the_alphabet"]}
 LP = {"quick": 7, "thorough": 8}
 NRANDOM = {"quick": 500, "thorough": 3000}
 DEFAULT_GROUPS = ["ED", "RK", "RKED", "QNSTGHC", "ALMIV", "FYW", "P"]
@@ -240,7 +240,9 @@ def check_composition(rep, S, obj, seq, w, rng):
         groups = []
         arg = []
         for gi in range(k):
-            g = rng.sample(list(M.AA), rng.randint(1, 8))
+            g = rng.sample(list(M.AA), rng.randint(1, 8) if rng.random() < 0.7 else rng.randint(9, 20))
+            if len(g) > 10:
+                rep.cnt("user_groups_larger_than_half_the_alphabet")
             if gi > 0 and rng.random() < 0.1:
                 g = []                      # an empty group is a legal group: its density is 0 everywhere
                 rep.cnt("empty_user_groups")
